@@ -74,15 +74,19 @@ Definition round_mag (n d : N) : N :=
 
 Definition with_sign (s : bool) (mag : N) : N := if s then mag + two31 else mag.
 
-Definition f_nan : N := 2143289344. (* 0x7FC00000 *)
+(* NaN handling follows x86 SSE (the platform the correspondence run executes on): an operand
+   NaN is propagated with its sign and payload; an invalid operation (0*inf, inf/inf, 0/0)
+   yields the default NaN 0xFFC00000.  NaN only arises from inputs such as `0e999rpx`. *)
+Definition f_nan : N := 4290772992. (* 0xFFC00000 *)
+Definition f_is_nan (b : N) : bool := (f_bexp b =? 255) && negb (f_mant b =? 0).
 Definition f_inf : N := 2139095040. (* 0x7F800000 *)
 
 (* a * b, round to nearest even *)
 Definition f_mul (a b : N) : N :=
   let s := xorb (f_sign a) (f_sign b) in
   if negb (f_is_finite a) || negb (f_is_finite b) then
-    (if (f_bexp a =? 255) && negb (f_mant a =? 0) then f_nan
-     else if (f_bexp b =? 255) && negb (f_mant b =? 0) then f_nan
+    (if f_is_nan a then a
+     else if f_is_nan b then b
      else if f_is_zero a || f_is_zero b then f_nan
      else with_sign s f_inf)
   else
@@ -97,8 +101,8 @@ Definition f_mul (a b : N) : N :=
 (* a / b, round to nearest even *)
 Definition f_div (a b : N) : N :=
   let s := xorb (f_sign a) (f_sign b) in
-  if (f_bexp a =? 255) && negb (f_mant a =? 0) then f_nan
-  else if (f_bexp b =? 255) && negb (f_mant b =? 0) then f_nan
+  if f_is_nan a then a
+  else if f_is_nan b then b
   else if negb (f_is_finite a) then (if negb (f_is_finite b) then f_nan else with_sign s f_inf)
   else if negb (f_is_finite b) then with_sign s 0
   else if f_is_zero b then (if f_is_zero a then f_nan else with_sign s f_inf)
